@@ -135,8 +135,13 @@ class Interp:
             return z3.Or(*[z3.And(g, self.eq(x, b)) for g, x in a.alts])
         if isinstance(b, VUnion):
             return z3.Or(*[z3.And(g, self.eq(a, x)) for g, x in b.alts])
+        ka, kb = self._seq_kind(a), self._seq_kind(b)
+        if ka is not None and kb is not None and ka != kb:
+            return z3.BoolVal(False)
         a = self._norm_container(a)
         b = self._norm_container(b)
+        if ka is not None and kb is not None:
+            return self._seq_eq(a, b)
         if isinstance(a, VNone) or isinstance(b, VNone):
             if isinstance(a, VRef) or isinstance(b, VRef):
                 return z3.BoolVal(False)   # gemato's __eq__ methods are never given None by == None
@@ -199,6 +204,30 @@ class Interp:
             # object vs builtin: entry __eq__ would be called; not needed so far
             raise Unsupported('== between object and %s' % kinds(b if isinstance(a, VRef) else a))
         raise Unsupported('== between %s and %s' % (kinds(a), kinds(b)))
+
+    def _seq_kind(self, v):
+        if isinstance(v, (VCell, VFieldCell)):
+            return v.kind if v.kind == 'list' else None
+        if isinstance(v, VSeq):
+            return v.kind
+        if isinstance(v, VTuple):
+            return 'tuple'
+        return None
+
+    def _seq_eq(self, a, b):
+        if isinstance(a, VTuple) and isinstance(b, VTuple):
+            if len(a.items) != len(b.items):
+                return z3.BoolVal(False)
+            return z3.And(*[self.eq(x, y) for x, y in zip(a.items, b.items)]) if a.items else z3.BoolVal(True)
+        if isinstance(a, VSeq) and isinstance(b, VSeq):
+            if a.t.sort() == b.t.sort():
+                return a.t == b.t
+            raise Unsupported('== of sequences with different element sorts')
+        s, t = (a, b) if isinstance(a, VSeq) else (b, a)
+        conj = [z3.Length(s.t) == len(t.items)]
+        for i, x in enumerate(t.items):
+            conj.append(self.eq(s.ety.wrap(s.t[i]), x))
+        return z3.And(*conj)
 
     def _norm_container(self, v):
         if isinstance(v, (VCell, VFieldCell)):
@@ -612,6 +641,38 @@ class Interp:
         from .contract import ClauseEnv
         return ClauseEnv(self, fr, extra or {})
 
+    def _loop_common_begin(self, st, fr, spec, ordinal, base_extra):
+        """check init, havoc, assume invariant; returns ghost term dict"""
+        ctx = self.ctx
+        g0 = {}
+        if spec.ghost_init is not None:
+            g0 = dict(spec.ghost_init(self.clause_env(fr, dict(base_extra))))
+        ex = dict(base_extra)
+        ex.update(g0)
+        self.check_inv(spec, ordinal, 'init', fr, ex)
+        self.havoc_loop_state(st, fr, spec)
+        ghosts = {}
+        for g, ty in spec.ghosts.items():
+            v = ty.fresh(ctx, 'ghost!' + g)
+            ghosts[g] = v.t if hasattr(v, 't') else v
+        return ghosts
+
+    def _loop_after_body(self, st, fr, spec, ordinal, ghosts, extra_now, extra_next, pre_locals, pre_heap, mark):
+        from .contract import ClauseEnv
+        ctx = self.ctx
+        ex = dict(extra_now)
+        ex.update(ghosts)
+        ex['pre'] = ClauseEnv(self, fr, dict(ghosts), heap=pre_heap, entry=getattr(self, 'entry_args', {}),
+                              locals_=pre_locals)
+        ex['calls'] = ctx.call_log[mark:]
+        new_ghosts = dict(ghosts)
+        if spec.ghost_update is not None:
+            new_ghosts.update(spec.ghost_update(self.clause_env(fr, ex)))
+        nx = dict(extra_next)
+        nx.update(new_ghosts)
+        self.check_inv(spec, ordinal, 'keep', fr, nx)
+        raise PathEnd()
+
     def st_For(self, st, fr):
         ctx = self.ctx
         itv = ctx.force(self.eval(st.iter, fr))
@@ -635,19 +696,21 @@ class Interp:
             raise Unsupported('loop %d (%s) over a symbolic sequence needs an invariant'
                               % (ordinal, header_fingerprint(st)), st)
         src = self.lib.iteration_source(self, itv, st)
-        # src: object with .length (z3 Int or None), .element(i) -> V (may assume), .kind
-        i0 = z3.IntVal(0)
-        self.check_inv(spec, ordinal, 'init', fr, {'i': i0, 'seq': src.term})
-        self.havoc_loop_state(st, fr, spec)
+        ghosts = self._loop_common_begin(st, fr, spec, ordinal, {'i': z3.IntVal(0), 'seq': src.term})
         i = ctx.fresh_const('loop!i', z3.IntSort())
         ctx.assume(i >= 0)
         if src.length is not None:
             ctx.assume(i <= src.length)
-        self.assume_inv(spec, fr, {'i': i, 'seq': src.term})
+        ex = {'i': i, 'seq': src.term}
+        ex.update(ghosts)
+        self.assume_inv(spec, fr, ex)
+        fr.ghost_values.update(ghosts)
+        fr.ghost_values['i%d' % ordinal] = i
+        pre_locals = dict(fr.locals)
+        pre_heap = ctx.snapshot_heap()
+        mark = len(ctx.call_log)
         nxt = src.next(self, i)       # None = exhausted, else V element (forks inside)
         if nxt is None:
-            # loop exits normally
-            self.check_inv(spec, ordinal, 'exit', fr, {'i': i, 'seq': src.term}) if spec.exit_checks else None
             self.exec_block(st.orelse, fr)
             return
         self.assign(st.target, nxt, fr)
@@ -657,8 +720,8 @@ class Interp:
             return
         except ContinueSig:
             pass
-        self.check_inv(spec, ordinal, 'keep', fr, {'i': i + 1, 'seq': src.term})
-        raise PathEnd()
+        self._loop_after_body(st, fr, spec, ordinal, ghosts, {'i': i, 'seq': src.term},
+                              {'i': i + 1, 'seq': src.term}, pre_locals, pre_heap, mark)
 
     def st_While(self, st, fr):
         ctx = self.ctx
@@ -667,7 +730,7 @@ class Interp:
             # bounded unrolling only if the guard becomes concrete
             n = 0
             while True:
-                c = z3.simplify(self.truth(self.eval(st.test, fr)))
+                c = simp(self.truth(self.eval(st.test, fr)))
                 if z3.is_false(c):
                     self.exec_block(st.orelse, fr)
                     return
@@ -680,13 +743,12 @@ class Interp:
                     return
                 except ContinueSig:
                     continue
-        self.check_inv(spec, ordinal, 'init', fr, {})
-        self.havoc_loop_state(st, fr, spec)
-        extra = {}
-        for g, ty in spec.ghosts.items():
-            extra[g] = ty.fresh(ctx, 'ghost!' + g)
-        fr.ghosts = extra
-        self.assume_inv(spec, fr, self._ghost_terms(extra))
+        ghosts = self._loop_common_begin(st, fr, spec, ordinal, {})
+        self.assume_inv(spec, fr, dict(ghosts))
+        fr.ghost_values.update(ghosts)
+        pre_locals = dict(fr.locals)
+        pre_heap = ctx.snapshot_heap()
+        mark = len(ctx.call_log)
         if not self.cond(self.eval(st.test, fr), 'while@%d' % st.lineno):
             self.exec_block(st.orelse, fr)
             return
@@ -696,13 +758,7 @@ class Interp:
             return
         except ContinueSig:
             pass
-        post = {}
-        if spec.ghost_update is not None:
-            post = spec.ghost_update(self.clause_env(fr, self._ghost_terms(extra)))
-        else:
-            post = self._ghost_terms(extra)
-        self.check_inv(spec, ordinal, 'keep', fr, post)
-        raise PathEnd()
+        self._loop_after_body(st, fr, spec, ordinal, ghosts, {}, {}, pre_locals, pre_heap, mark)
 
     def _ghost_terms(self, extra):
         out = {}
